@@ -36,6 +36,9 @@ def corpus(tier):
         out.append(pair_plan(side, 64, changes=[{'at': 1.0, 'kbps': 2}], seconds=1.5))
         out.append(pair_plan(side, 10, changes=[{'at': 1.0, 'kbps': 0}]))
         out.append(pair_plan(side, 10, changes=[{'at': 1.0, 'kbps': 10}, {'at': 2.0, 'kbps': 1}, {'at': 3.0, 'kbps': 64}]))
+        # a limit set at run time (not in the settings), then the server connection is lost and the client logs in again
+        out.append(pair_plan(side, 10, seconds=8.0, runtime_limit=True, relogin=1.5))
+        out.append(pair_plan(side, 10, seconds=8.0, changes=[{'at': 0.5, 'kbps': 2}], relogin=1.5))
     return out
 
 
@@ -51,6 +54,9 @@ def generate(rng, index, tier):
     net = common.draw_net(rng)
     plan['net'] = net
     plan['exec'] = {'delay_ms': [0, rng.choice([1, 5])]}
+    if rng.random() < 0.2:
+        plan['runtime_limit'] = rng.random() < 0.5
+        plan['relogin'] = rng.choice([0.5, 1.5, 3.0])
     return plan
 
 
@@ -67,15 +73,17 @@ def _run(world: World, plan):
     side = plan['side']
     size = min(plan['size'], 600_000)
     source = pattern_bytes(size, 11)
-    world.add_server()
+    server = world.add_server()
     share_dir = world.sandbox.sub('alice', 'share')
     with open(os.path.join(share_dir, 'data.bin'), 'wb') as fh:
         fh.write(source)
     alice = world.add_client('alice', overrides={
         'shares': {'scan_on_start': False, 'directories': [{'path': share_dir}]},
-        'network': {'limits': {'upload_speed_kbps': plan['limit'] if side == 'up' else 0}}})
+        'network': {'limits': {'upload_speed_kbps': plan['limit'] if side == 'up' and not plan.get('runtime_limit') else 0},
+                    'server': {'reconnect': {'auto': True, 'timeout': 1}}}})
     bob = world.add_client('bob', overrides={
-        'network': {'limits': {'download_speed_kbps': plan['limit'] if side == 'down' else 0}}})
+        'network': {'limits': {'download_speed_kbps': plan['limit'] if side == 'down' and not plan.get('runtime_limit') else 0},
+                    'server': {'reconnect': {'auto': True, 'timeout': 1}}}})
     limited = alice if side == 'up' else bob
     tr = {'up': None, 'down': None}
     events = []          # ('g', t, nbytes, tag) | ('c', t, kbps)
@@ -128,10 +136,28 @@ def _run(world: World, plan):
         await c.task
         item = next(iter(alice.client.shares.shared_directories[0].items))
         await asyncio.sleep(0.3)
+        if plan.get('runtime_limit'):
+            # the limit is set through the public call (not through the settings) before the transfer starts
+            if side == 'up':
+                limited.client.network.set_upload_speed_limit(plan['limit'])
+            else:
+                limited.client.network.set_download_speed_limit(plan['limit'])
         results['t_begin'] = loop.time()
         c = world.call(bob, 'download', bob.client.transfers.download, 'alice', item.get_remote_path())
         await c.task
         t0 = loop.time()
+        async def relogin():
+            # the limited client loses its server connection and logs in again by itself (auto-reconnect): limits that
+            # were set at run time have to survive the new session
+            rl = plan.get('relogin')
+            if rl is None:
+                return
+            await asyncio.sleep(max(t0 + float(rl) - loop.time(), 0.0))
+            for sess in server.sessions:
+                if not sess.closed and getattr(sess, 'username', None) == limited.name:
+                    world.net.fired['server_reset_then_relogin'] += 1
+                    sess.abort()
+        relog = asyncio.ensure_future(relogin())
         for ch in plan.get('changes', []):
             await asyncio.sleep(max(t0 + ch['at'] - loop.time(), 0.0))
             world.net.fired['limit_change'] += 1
